@@ -165,10 +165,11 @@ def run(ctx):
         # hand-written decoders decode exactly the documented leaf types: a wrong CBOR type must fail in the leaf
         # decoder (-> InvalidCbor), so none of them may accept "anything" (IgnoredAny) or another type
         got_leaves = W.handwritten_leaves(F)
-        for key in sorted(set(got_leaves) | set(W.WANT_LEAVES)):
+        want_leaves = W.want_leaves(F)
+        for key in sorted(set(got_leaves) | set(want_leaves)):
             label = "::".join(key[1:])
-            ctx.oblige("C05|handwritten-leaf|" + label, got_leaves.get(key) == W.WANT_LEAVES.get(key),
-                       "hand-written decoder %s decodes %s, documented %s: a value of the wrong CBOR type may be accepted instead of rejected with InvalidCbor" % (label, sorted(got_leaves.get(key, [])), sorted(W.WANT_LEAVES.get(key, []))), cfg=cfg)
+            ctx.oblige("C05|handwritten-leaf|" + label, got_leaves.get(key) == want_leaves.get(key),
+                       "hand-written decoder %s decodes %s, documented %s: a value of the wrong CBOR type may be accepted instead of rejected with InvalidCbor" % (label, sorted(got_leaves.get(key, [])), sorted(want_leaves.get(key, []))), cfg=cfg)
         # hand-written decoders never raise missing_field
         for f in F.fns:
             if f["pv"] != "user":
